@@ -670,6 +670,16 @@ func (MatchPath) matchPatternWithEscapeSequence(escapedPath, matchPath string) b
 		iPattern++
 	}
 
+	// whatever the pattern did not reach still is part of the path:
+	// a pattern without a trailing wildcard must not match a longer path
+	if iPath < len(escapedPath) {
+		rest, err := url.PathUnescape(escapedPath[iPath:])
+		if err != nil {
+			return false // should be impossible anyway
+		}
+		sb.WriteString(rest)
+	}
+
 	// we can now treat rawpath globs (%*) as regular globs (*)
 	matchPath = strings.ReplaceAll(matchPath, "%*", "*")
 
